@@ -177,6 +177,23 @@ def directed(toks, r):
         j = r.choice(targets)
         t[j] = t[j] + '_zz'
         out.append(('typedef-target-misspelled', t))
+    # `f(int a = 1, int b = 2)` -> `f(int a = 1, int b)`: well-formed for the parser, rejected by the MATLAB generator
+    # while it generates (a defaulted parameter in front of one without default): a late failure
+    lastdef = []
+    for j in range(2, n - 1):
+        if t0[j] == '=' and t0[j + 2] == ')' and t0[j - 1] not in ('{',):
+            k = j - 1
+            depth = 0
+            while k > 0 and not (t0[k] == '(' and depth == 0):
+                depth += {')': 1, '(': -1}.get(t0[k], 0)
+                k -= 1
+            if '=' in t0[k:j]:
+                lastdef.append(j)
+    if lastdef:
+        t = list(t0)
+        j = r.choice(lastdef)
+        del t[j:j + 2]
+        out.append(('last-default-dropped', t))
     bases = [j for j in range(2, n - 1) if ident(t0[j]) and t0[j + 1] == '{' and t0[j - 1] in (':', '>') or
              (ident(t0[j]) and t0[j + 1] == '{' and t0[j - 1] == '::')]
     if bases:
@@ -374,6 +391,13 @@ def run_entry_points(text, sb, acc, budget):
             ('matlab.wrap', lambda: MatlabWrapper(module_name='mod', ignore_classes=[]).wrap(
                 [sb.input], path=os.path.join(sb.out, 'toolbox'))),
         ]
+        if accepted and not undeclared:
+            # a list of sources one of which does not exist is no complete sequence of declarations either
+            def with_missing():
+                MatlabWrapper(module_name='mod', ignore_classes=[]).wrap(
+                    [sb.input, os.path.join(sb.src, 'no_such_file.i')], path=os.path.join(sb.out, 'toolbox'))
+                raise RuntimeError('accepted a source list naming a missing file')
+            runs.append(('matlab.wrap(missing source)', with_missing))
         for name, fn in runs:
             with monitors.FS as fs:
                 res = tool.outcome(fn)
